@@ -40,7 +40,7 @@ MANIFEST = {
 EXPLANATION = MANIFEST["level_text"]
 TRUSTED = [
     "pyvc VC generator; its encoding of Python float operations as z3 FloatingPoint (RNE), min()/max() in CPython's comparison order, int -> float conversion (finite, sign, monotone; OverflowError beyond binary64)",
-    "z3 5.1.0 (FloatingPoint, strings) / cvc5 1.0.3",
+    "z3 5.1.0 (FloatingPoint, strings) / cvc5 1.4.0",
     "httpx2 exception hierarchy as imported (ConnectError, TimeoutException, RemoteProtocolError are unrelated siblings under TransportError)",
 ]
 ASSUMPTIONS = [
